@@ -56,6 +56,7 @@ pub struct Tape {
     pub toks: Vec<Tok>,
     pub fail_at: Option<usize>,
     pub fired: bool,
+    pub human: bool,
 }
 impl Tape {
     fn emit(&mut self, t: Tok) -> Result<(), SimErr> {
@@ -170,7 +171,7 @@ impl<'a> Serializer for TokSer<'a> {
         self.0.borrow_mut().emit(Tok::Other("str"))
     }
     fn is_human_readable(&self) -> bool {
-        false
+        self.0.borrow().human
     }
 }
 
@@ -205,6 +206,9 @@ pub struct Feed {
     pub fired: bool,
     /// size_hint policy: None => None; Some(h) => Some(h) for every sequence
     pub hint: HintMode,
+    /// how an unsigned element is handed to the visitor: 0 as u32, 1 narrowest unsigned type, 2 always u64, 3 i64
+    pub deliver: u8,
+    pub human: bool,
 }
 #[derive(Clone, Copy, Debug, PartialEq)]
 pub enum HintMode {
@@ -289,10 +293,21 @@ impl<'de, 'a> Deserializer<'de> for TokDe<'a> {
     type Error = SimErr;
     fn deserialize_any<V: Visitor<'de>>(self, visitor: V) -> Result<V::Value, SimErr> {
         let t = self.0.borrow_mut().next()?;
+        let deliver = self.0.borrow().deliver;
         match t {
-            Tok::U32(v) => visitor.visit_u32(v),
+            Tok::U32(v) => match deliver {
+                1 if v <= u8::MAX as u32 => visitor.visit_u8(v as u8),
+                1 if v <= u16::MAX as u32 => visitor.visit_u16(v as u16),
+                2 => visitor.visit_u64(v as u64),
+                3 => visitor.visit_i64(v as i64),
+                _ => visitor.visit_u32(v),
+            },
             Tok::U64(v) => visitor.visit_u64(v),
-            Tok::I8(v) => visitor.visit_i8(v),
+            Tok::I8(v) => match deliver {
+                1 if v >= 0 => visitor.visit_u8(v as u8),
+                2 | 3 => visitor.visit_i64(v as i64),
+                _ => visitor.visit_i8(v),
+            },
             Tok::I64(v) => visitor.visit_i64(v),
             Tok::Seq(_) | Tok::Tuple(_) => {
                 let r = visitor.visit_seq(Acc(self.0))?;
@@ -313,7 +328,7 @@ impl<'de, 'a> Deserializer<'de> for TokDe<'a> {
         tuple_struct map struct enum identifier ignored_any
     }
     fn is_human_readable(&self) -> bool {
-        false
+        self.0.borrow().human
     }
 }
 
@@ -339,41 +354,18 @@ fn model_tokens_i(n: &RefInt) -> Vec<Tok> {
     t
 }
 
-/// Build the same value by different routes so that buffers carry different capacity / slack.
-pub fn build_u(words: &[u32], route: i128) -> BigUint {
-    let base = BigUint::new(words.to_vec());
-    match route {
-        1 => BigUint::from_slice(words),
-        2 => (base << 192u32) >> 192u32,
-        3 => {
-            let big = BigUint::new(vec![0xffff_ffff; words.len() + 9]);
-            (base + &big) - &big
-        }
-        4 => base.to_string().parse().unwrap(),
-        5 => {
-            let mut t = BigUint::new(vec![7; words.len() * 4 + 40]);
-            t.clone_from(&base);
-            t
-        }
-        6 => {
-            let mut w = words.to_vec();
-            w.extend_from_slice(&[0, 0, 0]);
-            BigUint::new(w)
-        }
-        7 => {
-            let mut t = BigUint::new(vec![1; 70]);
-            t.assign_from_slice(words);
-            t
-        }
-        _ => base,
-    }
-}
+pub use crate::obs::build_u;
 
 fn ser_tokens<T: Serialize>(v: &T, fail_at: Option<usize>) -> (Result<(), SimErr>, Vec<Tok>, bool) {
+    ser_tokens_h(v, fail_at, false)
+}
+
+fn ser_tokens_h<T: Serialize>(v: &T, fail_at: Option<usize>, human: bool) -> (Result<(), SimErr>, Vec<Tok>, bool) {
     let tape = RefCell::new(Tape {
         toks: vec![],
         fail_at,
         fired: false,
+        human,
     });
     let r = v.serialize(TokSer(&tape));
     let t = tape.into_inner();
@@ -385,6 +377,19 @@ pub fn de_tokens<'de, T: serde::Deserialize<'de>>(
     hint: HintMode,
     fail_at: Option<usize>,
 ) -> (Result<T, SimErr>, Feed) {
+    de_tokens_with::<T>(toks, hint, fail_at, 0, false, None)
+}
+
+/// `deliver`/`human`: how the simulated format talks to the visitor; `in_place`: deserialize into an
+/// existing object (`Deserialize::deserialize_in_place`) instead of creating a new one.
+pub fn de_tokens_with<'de, T: serde::Deserialize<'de>>(
+    toks: Vec<Tok>,
+    hint: HintMode,
+    fail_at: Option<usize>,
+    deliver: u8,
+    human: bool,
+    in_place: Option<T>,
+) -> (Result<T, SimErr>, Feed) {
     let feed = RefCell::new(Feed {
         toks,
         pos: 0,
@@ -392,8 +397,13 @@ pub fn de_tokens<'de, T: serde::Deserialize<'de>>(
         fail_at,
         fired: false,
         hint,
+        deliver,
+        human,
     });
-    let r = T::deserialize(TokDe(&feed));
+    let r = match in_place {
+        Some(mut place) => T::deserialize_in_place(TokDe(&feed), &mut place).map(|()| place),
+        None => T::deserialize(TokDe(&feed)),
+    };
     (r, feed.into_inner())
 }
 
@@ -428,7 +438,7 @@ fn gen_words(rng: &mut Prng, thorough: bool) -> Vec<u32> {
         1 => 1,
         2 => 2,
         3 => 3,
-        4 if thorough => rng.range(2000, 3000),
+        4 if thorough => *rng.pick(&[2000u64, 3000, 262_143, 262_144, 262_145, 262_146, 300_001]),
         5 => rng.range(60, 140),
         _ => rng.range(1, 40),
     } as usize;
@@ -469,8 +479,10 @@ pub fn gen(rng: &mut Prng, plan: &mut Plan) {
         let v = gen_words(rng, huge);
         let neg = rng.below(2) as i128;
         let s = match rng.below(12) {
-            0 | 1 => Step::new("rt_u").l32("v", &v).i("route", rng.below(8) as i128).i("hint", gen_hint(rng)),
-            2 | 3 => Step::new("rt_i").l32("v", &v).i("neg", neg).i("route", rng.below(8) as i128).i("hint", gen_hint(rng)),
+            0 | 1 => Step::new("rt_u").l32("v", &v).i("route", rng.below(8) as i128).i("hint", gen_hint(rng))
+                .i("deliver", rng.below(4) as i128).i("human", rng.below(2) as i128).i("inplace", rng.chance(1, 4) as i128),
+            2 | 3 => Step::new("rt_i").l32("v", &v).i("neg", neg).i("route", rng.below(8) as i128).i("hint", gen_hint(rng))
+                .i("deliver", rng.below(4) as i128).i("human", rng.below(2) as i128).i("inplace", rng.chance(1, 4) as i128),
             4 => {
                 let at = rng.below(v.len() as u64 + 3) as i128;
                 Step::new(if rng.chance(1, 2) { "serfail_u" } else { "serfail_i" })
@@ -507,7 +519,7 @@ pub fn gen(rng: &mut Prng, plan: &mut Plan) {
                     }
                     _ => {}
                 }
-                let mut s = Step::new("de_u").l("d", d.clone()).i("hint", gen_hint(rng));
+                let mut s = Step::new("de_u").l("d", d.clone()).i("hint", gen_hint(rng)).i("deliver", rng.below(4) as i128).i("human", rng.below(2) as i128);
                 if rng.chance(1, 8) {
                     s = s.i("wide", 1);
                 }
@@ -533,7 +545,7 @@ pub fn gen(rng: &mut Prng, plan: &mut Plan) {
                     3 => sign = *rng.pick(&[2i128, -2, 127, -128, 3, 64]),
                     _ => {}
                 }
-                let mut s = Step::new("de_i").i("sign", sign).l("d", d.clone()).i("hint", gen_hint(rng));
+                let mut s = Step::new("de_i").i("sign", sign).l("d", d.clone()).i("hint", gen_hint(rng)).i("deliver", rng.below(4) as i128).i("human", rng.below(2) as i128);
                 if rng.chance(1, 10) {
                     s = s.i("nofield", 1);
                 }
@@ -594,6 +606,9 @@ pub fn exec(plan: &Plan) -> RunResult {
                 let is_i = op == "rt_i";
                 let neg = s.int("neg") != 0;
                 let route = s.int("route");
+                let human = s.int("human") != 0;
+                let deliver = s.int("deliver") as u8;
+                let in_place = s.int("inplace") != 0;
                 let model_n = RefNat::from_u32s(&v);
                 let model_i = RefInt::new(neg, model_n.clone());
                 let api = if is_i { "BigInt" } else { "BigUint" };
@@ -601,10 +616,10 @@ pub fn exec(plan: &Plan) -> RunResult {
                     let u = build_u(&v, route);
                     if is_i {
                         let x = BigInt::from_biguint(if neg { Sign::Minus } else { Sign::Plus }, u);
-                        let (r, toks, _) = ser_tokens(&x, None);
+                        let (r, toks, _) = ser_tokens_h(&x, None, human);
                         (r, toks)
                     } else {
-                        let (r, toks, _) = ser_tokens(&u, None);
+                        let (r, toks, _) = ser_tokens_h(&u, None, human);
                         (r, toks)
                     }
                 });
@@ -649,10 +664,12 @@ pub fn exec(plan: &Plan) -> RunResult {
                 simalloc::track_max(true);
                 let back = catch(|| {
                     if is_i {
-                        let (r, f) = de_tokens::<BigInt>(toks.clone(), hint, None);
+                        let place = if in_place { Some(BigInt::new(Sign::Minus, vec![0xdead_beef; 9])) } else { None };
+                        let (r, f) = de_tokens_with::<BigInt>(toks.clone(), hint, None, deliver, human, place);
                         (r.map(|x| (denote_i(&x), noncanonical_i(&x))), f.pos)
                     } else {
-                        let (r, f) = de_tokens::<BigUint>(toks.clone(), hint, None);
+                        let place = if in_place { Some(BigUint::new(vec![0xdead_beef; 33])) } else { None };
+                        let (r, f) = de_tokens_with::<BigUint>(toks.clone(), hint, None, deliver, human, place);
                         (r.map(|x| (RefInt::new(false, denote_u(&x)), noncanonical_u(&x))), f.pos)
                     }
                 });
@@ -736,8 +753,10 @@ pub fn exec(plan: &Plan) -> RunResult {
                 }
                 let ntoks = toks.len();
                 simalloc::track_max(true);
+                let deliver = s.int("deliver") as u8;
+                let human = s.int("human") != 0;
                 let out = catch(|| {
-                    let (r, f) = de_tokens::<BigUint>(toks, hint, fail);
+                    let (r, f) = de_tokens_with::<BigUint>(toks, hint, fail, deliver, human, None);
                     (r.map(|x| (denote_u(&x), noncanonical_u(&x))), f.fired, f.pos)
                 });
                 let maxreq = simalloc::max_request();
@@ -816,8 +835,10 @@ pub fn exec(plan: &Plan) -> RunResult {
                     toks.push(Tok::End);
                 }
                 let ntoks = toks.len();
+                let deliver = s.int("deliver") as u8;
+                let human = s.int("human") != 0;
                 let out = catch(|| {
-                    let (r, f) = de_tokens::<BigInt>(toks, hint, fail);
+                    let (r, f) = de_tokens_with::<BigInt>(toks, hint, fail, deliver, human, None);
                     (r.map(|x| (denote_i(&x), noncanonical_i(&x))), f.fired, f.pos)
                 });
                 let (r, fired, pos) = match out {
